@@ -28,9 +28,9 @@
 #define MAXV 4
 enum { O_GATE = 100, O_GET = 101 };
 enum { O_LOCK, O_TRYLOCK, O_UNLOCK, O_UNLOCKWW, O_SET, O_SKIPUNLESS, O_MUWAIT, O_CVWAIT, O_CVLOOP, O_WAITN, O_WAITNLOOP,
-       O_SIGNAL, O_BROADCAST, O_DEBUG, O_NOTIFY, O_DECREF, O_FREEIFLAST, O_NOP };
+       O_SIGNAL, O_BROADCAST, O_DEBUG, O_NOTIFY, O_DECREF, O_FREEIFLAST, O_NOP, O_DEBUGCV };
 static const char *opnames[] = { "lock", "trylock", "unlock", "unlockww", "set", "skipunless", "muwait", "cvwait", "cvloop", "waitn", "waitnloop",
-				 "signal", "broadcast", "debug", "notify", "decref", "freeiflast", "nop" };
+				 "signal", "broadcast", "debug", "notify", "decref", "freeiflast", "nop", "debugcv" };
 struct op { int op, lt, c, dl, cn, v, x, skip; };
 struct condarg { int *cell; int id; };
 struct cond { int f, v, eq, cell; struct condarg *arg; };
@@ -170,6 +170,7 @@ static void client (void *arg) {
 		case O_SIGNAL: ip++; nsync_cv_signal (S.cv); break;
 		case O_BROADCAST: ip++; nsync_cv_broadcast (S.cv); break;
 		case O_DEBUG: { char buf[400]; ip++; nsync_mu_debug_state_and_waiters (S.mu, buf, (int) sizeof buf); break; }
+		case O_DEBUGCV: { char buf[400]; ip++; nsync_cv_debug_state_and_waiters (S.cv, buf, (int) sizeof buf); break; }
 		case O_NOTIFY: ip++; if (fine_notes) { S.notified = 1; nsync_note_notify (S.note); } else { rt_noyield_begin (); S.notified = 1; nsync_note_notify (S.note); rt_noyield_end (); } break;
 		case O_DECREF: ip++; S.refs--; S.ret[t] = (S.refs == 0); break;
 		case O_FREEIFLAST: ip++; if (S.ret[t] == 1) { S.word_at_free = *(volatile uint32_t *) &S.mu->word; S.mu_freed = 1; rt_free (S.mu); } break;
